@@ -21,7 +21,7 @@
 From Coq Require Import List Bool String ZArith QArith Lia.
 From KV Require Import Eqb AL Str.
 From KV.Model Require Import MQV MPose MRigs.
-From KV.Proofs Require Import PQV PRigs.
+From KV.Proofs Require Import PQV PRigs PRigsExt.
 Import ListNotations.
 Local Open Scope string_scope.
 Local Open Scope list_scope.
@@ -169,6 +169,81 @@ Theorem C06_history_recover_remove : forall (h : list (step pose)) st (R : rigsQ
 Proof. exact history_recover_remove. Qed.
 Print Assumptions C06_history_recover_remove.
 
+(* --- 4d. the max_depth argument of rigs_remove_inplace / rigs_recover_inplace (the copying variants always use 10).
+         Theorems 1 and 2 hold for EVERY max_depth that is at least the nesting depth, not only for the default ... *)
+Theorem C06_remove_spec_any_max_depth : forall (R : rigsQ) (T : trajQ) n k,
+  wf2 R -> wf2 T -> one_parent R -> depth_le R n -> (n <= k)%nat -> rigs_nonempty R ->
+  no_empty_timestamp T -> single_source R T ->
+  exists T', remove_spec_inplace k R T = Done T' /\
+    (forall t r, is_rig R r = true -> lookup2 t r T' = None) /\
+    (forall t d, is_rig R d = false -> posed T t d -> lookup2 t d T' = lookup2 t d T) /\
+    (forall t d l top w, is_rig R d = false -> path_up R d l top -> lookup2 t top T = Some w ->
+       lookup2 t d T' = Some (comp_path pose compose2 l w)) /\
+    (forall t d, posed T' t d -> is_rig R d = false /\ (posed T t d \/ exists a, anc R a d /\ posed T t a)) /\
+    wf2 T' /\ no_empty_timestamp T'.
+Proof. exact (remove_spec_gen pose compose2). Qed.
+Print Assumptions C06_remove_spec_any_max_depth.
+
+(* ... and the outcome (result or exception, literally) does not depend on max_depth once it reaches the nesting depth:
+   on every well-formed input, inside the quantifier or not (no one_parent, no single_source, any master list). *)
+Theorem C06_max_depth_irrelevant : forall (R : rigsQ) (T : trajQ) masters n k,
+  wf2 R -> wf2 T -> depth_le R n -> (n <= k)%nat ->
+  remove_spec_inplace k R T = remove_spec_inplace n R T /\
+  recover_spec_inplace k R masters T = recover_spec_inplace n R masters T.
+Proof.
+  intros R T masters n k WR WT DL Le. split;
+    [apply (remove_fuel_irrelevant pose compose2) | apply (recover_fuel_irrelevant pose compose2 inverse)]; assumption.
+Qed.
+Print Assumptions C06_max_depth_irrelevant.
+
+(* --- 4e. what must NOT change.  Trajectories in which no rig is posed are returned literally unchanged by rigs_remove;
+         trajectories in which no mounted device is posed are returned literally unchanged by rigs_recover, whatever the
+         master list; for every max_depth.  With an empty timestamp instead (outside the quantifier) rigs_remove_inplace
+         raises RuntimeError after deleting the first one. *)
+Theorem C06_nothing_to_do_is_identity : forall (R : rigsQ) (T : trajQ) masters k,
+  wf2 T ->
+  (no_empty_timestamp T -> (forall t r, is_rig R r = true -> lookup2 t r T = None) -> remove_spec_inplace k R T = Done T) /\
+  ((forall t y, mounted R y = true -> lookup2 t y T = None) -> recover_spec_inplace k R masters T = Done T) /\
+  (forall t0, (forall t r, is_rig R r = true -> lookup2 t r T = None) -> first_empty pose T = Some t0 ->
+              remove_spec_inplace k R T = RuntimeErr (AL.remove t0 T)).
+Proof.
+  intros R T masters k WT. split; [|split].
+  - intros NE N. apply (remove_noop pose compose2); assumption.
+  - intros N. apply (recover_noop pose compose2 inverse); assumption.
+  - intros t0 N F. apply (remove_empty_timestamp_raises pose compose2); assumption.
+Qed.
+Print Assumptions C06_nothing_to_do_is_identity.
+
+(* --- 4f. idempotence.  Whenever one of the two functions returns normally with max_depth >= nesting depth (any input,
+         any master list), applying it again -- with any max_depth and any master list -- returns literally the same
+         trajectories: a second rigs_remove / rigs_recover never moves, adds or drops anything. *)
+Theorem C06_idempotent : forall (R : rigsQ) (T T' : trajQ) masters masters' n k k',
+  wf2 R -> wf2 T -> depth_le R n -> (n <= k)%nat ->
+  (remove_spec_inplace k R T = Done T' -> remove_spec_inplace k' R T' = Done T') /\
+  (recover_spec_inplace k R masters T = Done T' -> recover_spec_inplace k' R masters' T' = Done T').
+Proof.
+  intros R T T' masters masters' n k k' WR WT DL Le. split.
+  - apply (remove_idempotent pose compose2 R n k k' T T'); assumption.
+  - apply (recover_idempotent pose compose2 inverse R n k k' masters masters' T T'); assumption.
+Qed.
+Print Assumptions C06_idempotent.
+
+(* --- 4g. the round trip in the other direction (hypotheses of theorem 2): T1 = remove T, T2 = recover T1, T3 = remove T2.
+         Every sensor posed after the first replacement is posed after the third step with the same pose (=p=), T3 holds
+         no rig identifier and still agrees with the world assignment.  (T3 may pose more sensors than T1: a rig
+         recovered from one posed member is replaced by all its members, each at its world pose.) *)
+Theorem C06_remove_recover_remove : forall (R : rigsQ) (T : trajQ) n world,
+  wf2 R -> wf2 T -> one_parent R -> depth_le R n -> (n <= max_depth)%nat -> rigs_nonempty R -> rigs_validQ R ->
+  no_empty_timestamp T -> consistent R world T ->
+  exists T1 T2 T3,
+    remove_spec_inplace max_depth R T = Done T1 /\ recover_spec_inplace max_depth R None T1 = Done T2 /\
+    remove_spec_inplace max_depth R T2 = Done T3 /\
+    (forall t s p1, lookup2 t s T1 = Some p1 -> exists p3, lookup2 t s T3 = Some p3 /\ p3 =p= p1) /\
+    (forall t r, is_rig R r = true -> lookup2 t r T3 = None) /\
+    consistent R world T3.
+Proof. exact remove_recover_remove_pose. Qed.
+Print Assumptions C06_remove_recover_remove.
+
 (* --- 5. the modelled KeyError outcomes (a job whose entry has vanished) never happen on real dicts *)
 Theorem C06_no_keyerror : forall (R : rigsQ) (T : trajQ) masters fuel,
   wf2 R -> wf2 T -> remove_spec_inplace fuel R T <> KeyErr /\ recover_spec_inplace fuel R masters T <> KeyErr.
@@ -295,4 +370,24 @@ Proof.
   split; [vm_compute; reflexivity|].
   eexists. eexists. split; [vm_compute; reflexivity|]. split; [vm_compute; reflexivity|].
   split; eexists; (split; [vm_compute; reflexivity | qeq_compute]).
+Qed.
+
+(* --- the new theorems on the example forest Rex (depth 2): max_depth = 2 gives what max_depth = 10 gives, max_depth = 1
+       does not (rig "A" is still posed: the bound n <= k of 4d is needed); the result of remove is a fixed point of remove,
+       that of recover a fixed point of recover; remove o recover o remove poses s1 where the first remove did. *)
+Example C06_max_depth_example :
+  remove_spec_inplace 2 Rex Tex = remove_spec_inplace max_depth Rex Tex /\
+  remove_spec_inplace 1 Rex Tex <> remove_spec_inplace max_depth Rex Tex /\
+  (exists T1, remove_spec_inplace 1 Rex Tex = Done T1 /\ posed T1 1%Z "A") /\
+  exists T1 T2 T3, remove_spec_inplace max_depth Rex Tex = Done T1 /\ remove_spec_inplace 0 Rex T1 = Done T1 /\
+    recover_spec_inplace 3 Rex None T1 = Done T2 /\ recover_spec_inplace 7 Rex (Some ["s1"]) T2 = Done T2 /\
+    remove_spec_inplace max_depth Rex T2 = Done T3 /\
+    map (fun tm => (fst tm, keys (snd tm))) T3 = [(1%Z, ["free"; "s3"; "s1"; "s2"]); (2%Z, ["free"])] /\
+    (exists p, lookup2 1%Z "s1" T3 = Some p /\ p =p= P7 4 3 (-2) (-1)  (-2) (-2) 4).
+Proof.
+  split; [vm_compute; reflexivity|]. split; [vm_compute; discriminate|].
+  split; [eexists; split; [vm_compute; reflexivity | vm_compute; discriminate]|].
+  eexists. eexists. eexists. split; [vm_compute; reflexivity|]. split; [vm_compute; reflexivity|].
+  split; [vm_compute; reflexivity|]. split; [vm_compute; reflexivity|]. split; [vm_compute; reflexivity|].
+  split; [vm_compute; reflexivity|]. eexists; split; [vm_compute; reflexivity | qeq_compute].
 Qed.
